@@ -39,7 +39,8 @@ LEVEL_NOTE = ("trusted: CPython ast (spans, parse), the reference model (~200 li
 TECHNIQUE = "runtime monitoring: reference-model monitor over CPython ast + extension-event trace checker + totality monitor"
 REQUIRED_COUNTERS = ["modules_visited", "scopes_compared", "members_compared", "spans_compared", "slices_reparsed", "labels_compared",
                      "docstrings_compared", "visibility_rows_compared", "traces_checked", "events_recorded",
-                     "totality_files_visited", "conditional_reassignments_seen", "displaced_duplicates_seen"]
+                     "totality_files_visited", "conditional_reassignments_seen", "displaced_duplicates_seen",
+                     "modules_loaded_through_loader"]
 EXHAUSTIVE = {"quick": False, "thorough": False}
 ASSUMPTIONS = ["else-branches of `if TYPE_CHECKING` and TYPE_CHECKING blocks nested in other blocks are not generated",
                "labels are compared exactly only for names bound once in their scope"]
@@ -532,6 +533,16 @@ def judge_module(rec, src: str, nontrivial_hint: bool | None = None, model: bool
             if problem:
                 rec.fail(case, "event trace: " + problem, nontrivial=nontrivial)
                 return
+            # the same module through the real loader (built-in extensions run on_package_loaded there): never raising
+            if len(src) % 3 == 0 or not model:
+                from vf.core.util import load_files
+
+                lmod, _ = load_files({"m/__init__.py": src}, "m")
+                rec.count("modules_loaded_through_loader")
+                if set(lmod.members) != set(mod.members):
+                    rec.fail(case, "member names differ between visit() and a load() of the same source",
+                             observed=sorted(set(lmod.members) ^ set(mod.members)), nontrivial=nontrivial)
+                    return
             if not model:
                 mod.as_json()
                 rec.ok(case, nontrivial=nontrivial, tags=("totality",))
@@ -619,7 +630,7 @@ def run_shard(spec: dict, rec) -> None:  # noqa: ANN001
                     e = ast.unparse(g.top(rng.randint(1, 3)))
                 except Exception:  # noqa: BLE001
                     continue
-                form = rng.randrange(8)
+                form = rng.randrange(7)  # (an arbitrary expression assigned to __all__ is not generated: what it would export is undefined)
                 parts.append([f"@{e}\ndef f{i}(): ...\n", f"@{e}\nclass D{i}: ...\n", f"class B{i}({e}): ...\n", f"v{i} = {e}\n",
                               f"a{i}: {e} = 1\n", f"def g{i}(p: {e} = {e}) -> {e}: ...\n",
                               f"class K{i}:\n    c: {e} = {e}\n    @{e}\n    def m(self, q={e}): ...\n",
